@@ -292,12 +292,15 @@ pub fn c10() -> Result<u64, String> {
     for round in 0..150 {
         let k = [1usize, 2, 3, 5, 8, 30][round % 6];
         let tiles = gen_tiles(&mut r, k, 2);
-        for mode in 0..3 { n += 1;
-            // mode 0: all in memory; 1: all reader-backed (rewrite of an opened archive); 2: opened archive + in-memory duplicates/edits
+        for mode in 0..4 { n += 1;
+            // mode 0: all in memory; 1: all reader-backed (rewrite of an opened archive); 2: opened archive + in-memory duplicates/edits;
+            // 3: rewrite of a FOREIGN archive (contents in random order, prefixes sharing an offset with a longer content, unknown statistics)
             let c = COMPS[round % 4];
             let (b0, _) = write_at(build(&tiles, c, &Default::default()), 0).map_err(|e| e.to_string())?;
             let mut want = tiles.clone();
             let bytes = match mode { 0 => b0, 1 => write_at(PMTiles::from_bytes(b0).map_err(|e| e.to_string())?, 0).map_err(|e| e.to_string())?.0,
+                3 => { let fb = foreign_archive(&mut r, &tiles, 1 + (round % 4) as u8, [0, 2, 3][round % 3], round % 5 == 0);
+                       write_at(PMTiles::from_bytes(fb).map_err(|e| format!("foreign archive does not open: {e}"))?, 0).map_err(|e| e.to_string())?.0 }
                 _ => { let mut pm = PMTiles::from_bytes(b0).map_err(|e| e.to_string())?;
                        let ids: Vec<u64> = tiles.keys().copied().collect();
                        for j in 0..1 + r.below(3) { let src = *r.pick(&ids); let dst = ids.last().unwrap() + 1 + j + r.below(2); let cnt = tiles[&src].clone(); pm.add_tile(dst, cnt.clone()).unwrap(); want.insert(dst, cnt); }
@@ -305,7 +308,7 @@ pub fn c10() -> Result<u64, String> {
             let p = parse_archive(&bytes).map_err(|e| format!("written archive invalid: {e}"))?;
             let mut distinct: Vec<&Vec<u8>> = want.values().collect(); distinct.sort(); distinct.dedup();
             let total: u64 = distinct.iter().map(|c| c.len() as u64).sum();
-            let desc = format!("tiles {:?} (mode {mode}: {})", want.iter().map(|(k, v)| (*k, v.len())).collect::<Vec<_>>(), ["in memory", "reader-backed", "reader-backed + in-memory duplicates"][mode]);
+            let desc = format!("tiles {:?} (mode {mode}: {})", want.iter().map(|(k, v)| (*k, v.len())).collect::<Vec<_>>(), ["in memory", "reader-backed", "reader-backed + in-memory duplicates", "rewrite of a foreign archive"][mode]);
             if p.hdr.data_len != total { return Err(format!("tile-data section has {} bytes, distinct contents sum to {total}: {desc}", p.hdr.data_len)); }
             if p.hdr.n_contents != distinct.len() as u64 { return Err(format!("header counts {} contents, there are {} distinct: {desc}", p.hdr.n_contents, distinct.len())); }
             let mut where_: BTreeMap<&Vec<u8>, (u64, u32)> = BTreeMap::new();
